@@ -1,6 +1,6 @@
 (* C11 lemmas: the converter skeleton of Model/Converter.v over the source-derived tables of Gen/ConvTables.v.
    All statements quantify over every instantiation of the abstract leaf converters. *)
-From Coq Require Import String FunctionalExtensionality.
+From Coq Require Import String.
 From RV Require Import Model.Base Model.ConvBase Gen.ConvTables Model.Converter.
 
 Lemma nodes_rect_simple (P : nodes -> Prop) : P NNil -> (forall x r, P r -> P (NCons x r)) -> forall l, P l.
@@ -145,41 +145,70 @@ Section P.
     - cbn [napp]. rewrite !conv_children_cons. destruct (CE x top clip st c p) as [c1 p1]. apply IH, H.
   Qed.
 
+  (* The abstract `use` / nested `svg` converters only CALL the conversions of the children they are given
+     (Rust closures cannot be inspected): extensionally equal callbacks give equal results. *)
+  Definition callbacks_ext : Prop :=
+    (forall a fc f f' g g' st c p,
+       (forall st c p, f st c p = f' st c p) -> (forall st c p, g st c p = g' st c p) ->
+       conv_use a fc f g st c p = conv_use a fc f' g' st c p) /\
+    (forall a f f' st c p, (forall st c p, f st c p = f' st c p) -> conv_nested_svg a f st c p = conv_nested_svg a f' st c p).
+
+  Lemma first_exit_ext {S R} (l : list S) (f g : S -> option R) d :
+    (forall s, f s = g s) -> first_exit l f d = first_exit l g d.
+  Proof. intros H. induction l as [|x r IH]; cbn; [reflexivity|]. rewrite H, IH. reflexivity. Qed.
+
+  Lemma convert_group_ext tg a st force p c collect collect' :
+    (forall c' g', collect c' g' = collect' c' g') ->
+    CG tg a st force p c collect = CG tg a st force p c collect'.
+  Proof. intros H. unfold convert_group. rewrite H. reflexivity. Qed.
+
   (* what the induction carries for a pair of related nodes / lists *)
+  Definition same_cc (l l' : nodes) : Prop := forall top clip st c p, CC l' top clip st c p = CC l top clip st c p.
   Definition same_elem (n n' : node) : Prop :=
     node_tag n' = node_tag n /\ node_attrs n' = node_attrs n /\
-    CC (node_children n') = CC (node_children n) /\ CE n' = CE n.
+    same_cc (node_children n) (node_children n') /\
+    (forall top clip st c p, CE n' top clip st c p = CE n top clip st c p).
   Definition grand_same (l l' : nodes) : Prop :=
     match l, l' with
     | NNil, NNil => True
-    | NCons x _, NCons x' _ => CC (node_children x') = CC (node_children x)
+    | NCons x _, NCons x' _ => same_cc (node_children x) (node_children x')
     | _, _ => False
     end.
   Definition same_list (b : bool) (l l' : nodes) : Prop :=
-    CC l' = CC l /\
-    (b = false -> CF l' = CF l /\ has_passing l' = has_passing l /\ first_child_info l' = first_child_info l /\ grand_same l l').
+    same_cc l l' /\
+    (b = false -> (forall st c p, CF l' st c p = CF l st c p) /\ has_passing l' = has_passing l /\
+                  first_child_info l' = first_child_info l /\ grand_same l l').
 
   Lemma same_elem_refl n : same_elem n n.
   Proof. repeat split. Qed.
 
+  Hypothesis Hext : callbacks_ext.
+
   Lemma elem_body_congr tg a ch ch' :
     tg <> Some T_Text -> same_list (allows_insertion tg) ch ch' ->
-    CE (Node tg a ch') = CE (Node tg a ch).
+    forall top clip st c p, CE (Node tg a ch') top clip st c p = CE (Node tg a ch) top clip st c p.
   Proof.
-    intros Ht [Hc Hs].
-    do 5 (apply functional_extensionality; intro).
-    rewrite !conv_elem_eq. unfold elem_body. rewrite Hc.
+    intros Ht [Hc Hs] top clip st c p. destruct Hext as [Huse Hsvg].
+    rewrite !conv_elem_eq. unfold elem_body.
     destruct tg as [t|]; [|reflexivity].
-    destruct (tag_eqb t T_Use) eqn:Eu; [destruct t; try discriminate Eu|];
-      [|destruct (tag_eqb t T_Switch) eqn:Es; [destruct t; try discriminate Es|]].
+    apply first_exit_ext. intros s. destruct s; try reflexivity.
     - (* use *)
-      destruct (Hs eq_refl) as (_ & _ & Hi & Hg). rewrite Hi.
+      destruct t; try reflexivity.
+      destruct (Hs eq_refl) as (_ & _ & Hi & Hg). rewrite Hi. f_equal.
+      apply Huse; [intros; apply Hc|].
       destruct ch as [|[? ? g] ?], ch' as [|[? ? g'] ?]; cbn in Hg; try contradiction; [reflexivity|].
-      rewrite Hg. reflexivity.
+      intros; apply Hg.
     - (* switch *)
-      destruct (Hs eq_refl) as (Hf & Hp & _ & _). rewrite Hf, Hp. reflexivity.
-    - (* everything else: the children are only reached through conv_children *)
-      destruct t; try discriminate Eu; try discriminate Es; try reflexivity; exfalso; apply Ht; reflexivity.
+      destruct t; try reflexivity.
+      destruct (Hs eq_refl) as (Hf & Hp & _ & _). rewrite Hp.
+      destruct (has_passing ch); [|reflexivity]. f_equal. f_equal. apply convert_group_ext. intros; apply Hf.
+    - (* group conversion: the children are only reached through conv_children *)
+      f_equal. f_equal. apply convert_group_ext. intros c' g'.
+      destruct (tag_in t (if clip then clip_shape_tags else impl_shape_tags)); [reflexivity|].
+      destruct t; try reflexivity.
+      + exfalso; apply Ht; reflexivity.
+      + destruct clip; [reflexivity|]. apply Hc.
+      + destruct clip; [reflexivity|]. destruct top; [apply Hc|]. apply Hsvg. intros; apply Hc.
   Qed.
 
   Lemma lift_both :
@@ -192,21 +221,21 @@ Section P.
       repeat split; [apply IH | apply elem_body_congr; assumption].
     - intros b. repeat split.
     - intros b x x' l l' _ (Ht & Ha & Hg & He) _ (Hc & Hs). split.
-      + do 5 (apply functional_extensionality; intro). rewrite !conv_children_cons, He, Hc. reflexivity.
+      + intros top clip st c p. rewrite !conv_children_cons, He. destruct (CE x top clip st c p). apply Hc.
       + intros Hb. destruct (Hs Hb) as (Hf & Hp & _ & _). repeat split.
-        * do 3 (apply functional_extensionality; intro). rewrite !conv_first_cons, Ht, Ha, He, Hf. reflexivity.
+        * intros st c p. rewrite !conv_first_cons, Ht, Ha, He, Hf. reflexivity.
         * cbn [has_passing]. rewrite Ht, Ha, Hp. reflexivity.
         * cbn [first_child_info]. rewrite Ht, Ha. reflexivity.
         * exact Hg.
     - intros j l l' Hj _ (Hc & _). split; [|discriminate].
-      do 5 (apply functional_extensionality; intro). rewrite conv_children_cons, (ignorable_is_noop j _ _ _ _ _ Hj), Hc. reflexivity.
+      intros top clip st c p. rewrite conv_children_cons, (ignorable_is_noop j _ _ _ _ _ Hj). apply Hc.
   Qed.
 
   Theorem context_free_tree n n' top clip st c p : ins n n' -> CE n' top clip st c p = CE n top clip st c p.
-  Proof. intros H. destruct (proj1 lift_both n n' H) as (_ & _ & _ & He). rewrite He. reflexivity. Qed.
+  Proof. intros H. destruct (proj1 lift_both n n' H) as (_ & _ & _ & He). apply He. Qed.
 
   Theorem context_free_forest l l' top clip st c p : ins_list true l l' -> CC l' top clip st c p = CC l top clip st c p.
-  Proof. intros H. destruct (proj2 lift_both true l l' H) as (Hc & _). rewrite Hc. reflexivity. Qed.
+  Proof. intros H. destruct (proj2 lift_both true l l' H) as (Hc & _). apply Hc. Qed.
 End P.
 
 (* ------------------------------------------------------------------ id pre-scan and generated ids *)
